@@ -103,6 +103,29 @@ class LayerA(core.Layer):
         return check_case(tuple(case['config']), case['maxDistance'], case['reference'], case['query'], case['peaks'], None)
 
 
+class LadderA(core.Layer):
+    def __init__(self, name, full, configs, optional=False):
+        self.name, self.optional = name, optional
+        self.cases = list(lattice.ladder_cases(full))
+        self.configs = configs
+        self.chunk = 40
+        self.bounds = dict(worlds='indel-ladder worlds of mc.props.c15.ladder_worlds(full=%s)' % full, peaks_per_list=[1, 3], maxDistance=4,
+                           configs=[list(c) for c in configs])
+        self.rule = '%d (world, peak list) cases x %d configs, each run forward and mirrored' % (len(self.cases), len(configs))
+
+    def nblocks(self):
+        return (len(self.cases) + self.chunk - 1) // self.chunk
+
+    def run_block(self, b, acc):
+        for name, ref, q, peaks in self.cases[b * self.chunk:(b + 1) * self.chunk]:
+            for cfg in self.configs:
+                acc.seq += 1
+                check_case(cfg, 4, ref, q, peaks, acc)
+
+    def replay(self, case):
+        return check_case(tuple(case['config']), case['maxDistance'], case['reference'], case['query'], case['peaks'], None)
+
+
 # ------------------------------------------------------------------------------------------------
 # layer B
 
@@ -168,8 +191,9 @@ SETTINGS = (('-d', '600'), ('-d', '600', '-pt', '12', '-ma', '30000'))
 
 
 def check_world(refs, pos, acc, key=None, setting=0):
-    q = (7, pos[-1] + 1.0, list(pos))
-    qm = (7, pos[-1] + 1.0, sorted(pos[-1] - p for p in pos))
+    # the contig extends beyond the last label (and the first label is at 0): trimming must cut both ends on both strands
+    q = (7, pos[-1] + 1.0 + 2500.0, list(pos))
+    qm = (7, pos[-1] + 1.0 + 700.0, sorted(pos[-1] - p for p in pos))
     n = len(pos)
     extra = list(SETTINGS[setting])
     o1 = driver.run_world(dict(refs=refs, queries=[q]), 'separate', extra=extra, extensions=[sink_seeds()], keep_result=True)
@@ -256,5 +280,5 @@ class LayerB(core.Layer):
 
 def layers(tier, seed):
     if tier == 'quick':
-        return [LayerA('A:NR5,NQ4', 5, 4, CONFIGS[:2]), LayerB(tier, seed)]
-    return [LayerA('A:NR5,NQ4', 5, 4, CONFIGS), LayerA('A:NR6,NQ5', 6, 5, CONFIGS), LayerB(tier, seed)]
+        return [LayerA('A:NR5,NQ4', 5, 4, CONFIGS[:2]), LadderA('A:indel-ladders', False, CONFIGS[:2]), LayerB(tier, seed)]
+    return [LayerA('A:NR5,NQ4', 5, 4, CONFIGS), LadderA('A:indel-ladders', True, CONFIGS), LayerA('A:NR6,NQ5', 6, 5, CONFIGS), LayerB(tier, seed)]
